@@ -55,6 +55,10 @@ KIND_TYPES = {"abytes": {"bytes", "object"}, "int": {"int", "object"}, "bool": {
 def isinstance_atom(ex, state, a, t):
     if isinstance(t, VOpaque):
         return z3.Bool(fresh_name("isinst_opq"))
+    from . import loader as _ld
+    if isinstance(t, VModule) and not _ld.is_repo_module(t.name.rsplit(".", 1)[0]) and isinstance(a, VOpaque):
+        # a class imported from outside the repository tested against an opaque value: unknown outcome
+        return z3.Bool(fresh_name("isinst_ext"))
     if not isinstance(t, VClass):
         raise Unsupported("isinstance against %r" % (t,))
     tn = t.name.split(".")[-1]
@@ -70,6 +74,9 @@ def isinstance_atom(ex, state, a, t):
             return z3.BoolVal(tn in ("dict", "object", "Mapping"))
         if o.kind == "barray":
             return z3.BoolVal(tn in ("array", "object"))
+        if o.cls is None and o.kind == "inst" and o.shape is not None:
+            # a shape without a repository class: an instance of some class outside the repository
+            return z3.BoolVal(tn in ("object",) + tuple(getattr(ex.reg.shapes[o.shape], "isa", ())))
         if o.cls is not None:
             names = ex.class_bases(o.cls)
             if tn in names or tn == "object":
@@ -126,12 +133,16 @@ def b_callable(ex, state, args, kwargs, sv):
 @builtin("hasattr")
 def b_hasattr(ex, state, args, kwargs, sv):
     o, n = args
+    if isinstance(o, VUnion):
+        return ex.dist(state, [o], lambda x: b_hasattr(ex, state, [x, n], kwargs, sv))
     if isinstance(o, VOpaque):
         return VBool(z3.Bool(fresh_name("hasattr")))
     if isinstance(o, VRef) and isinstance(n, VStr) and z3.is_string_value(n.t):
         ob = ex.obj(state, o)
         name = n.t.as_string()
         if name in ob.fields:
+            return VBool(True)
+        if ob.shape is not None and name in ex.reg.shapes[ob.shape].methods:
             return VBool(True)
         if ob.cls is not None and ob.cls.info is not None:
             c, m = ob.cls.info.find_method(name)
@@ -140,6 +151,8 @@ def b_hasattr(ex, state, args, kwargs, sv):
         return VBool(False)
     if isinstance(o, VFunc):
         return VBool(z3.Bool(fresh_name("hasattr_func")))
+    if isinstance(o, VNoneT) and isinstance(n, VStr) and z3.is_string_value(n.t) and not n.t.as_string().startswith("__"):
+        return VBool(False)
     raise Unsupported("hasattr on %r" % (o,))
 
 
@@ -373,8 +386,13 @@ def b_bytes(ex, state, args, kwargs, sv):
     if not args:
         return VBytes(b"")
     a = args[0]
+    if isinstance(a, VUnion):
+        return ex.dist(state, [a], lambda x: b_bytes(ex, state, [x] + list(args[1:]), kwargs, sv))
     if isinstance(a, (VBytes, VABytes)):
         return a
+    if ex.spec_mode and isinstance(a, VRef) and ex.obj(state, a).kind == "list" and ex.obj(state, a).items is None \
+            and ex.obj(state, a).seq is not None:
+        return VBytes(ex.obj(state, a).seq)     # spec language only: the sequence of a symbolic int list
     if isinstance(a, VTuple) or (isinstance(a, VRef) and ex.obj(state, a).kind == "list"):
         items = ex.iter_concrete(state, a)
         ts = []
@@ -387,6 +405,10 @@ def b_bytes(ex, state, args, kwargs, sv):
         return VBytes(ts[0] if len(ts) == 1 else z3.Concat(*ts))
     if isinstance(a, VRef) and ex.obj(state, a).kind == "barray":
         return barray_tobytes(ex, state, [], {}, a)
+    if ex.spec_mode and isinstance(a, VRef) and ex.obj(state, a).kind == "list" and ex.obj(state, a).seq is not None:
+        return VBytes(ex.obj(state, a).seq)     # spec language only: the sequence of a symbolic int list
+    if ex.spec_mode and isinstance(a, (VOpaque, VNoneT)):
+        ex.raise_if(state, z3.BoolVal(True), "TypeError")       # clause undefined for this alternative
     raise Unsupported("bytes() of %r" % (a,))
 
 
@@ -1015,7 +1037,7 @@ def dict_setitem(ex, state, ref, k, v):
                 o.sym["val"] = z3.Store(sym["val"], t, seq)     # the list is stored by value (see VListView)
                 return
             raise Unsupported("store of %r into a table of lists" % (v,))
-        o.sym["val"] = z3.Store(sym["val"], t, _unwrap_sym(sym["vtype"], v))
+        o.sym["val"] = z3.Store(sym["val"], t, _unwrap_sym(sym["vtype"], ex.narrow(state, v)))
         return
     if o.d == {} and not (isinstance(k, VStr) and z3.is_string_value(k.t)) and isinstance(k, (VStr, VInt)):
         # an empty dict receiving a symbolic key becomes a symbolic table (key sort from the key, values by kind)
@@ -1109,7 +1131,8 @@ def _dv(kind):
                 patterns=[z3.Select(val, k)]))
             return state.alloc(lst)
         if o.d is None:
-            raise Unsupported("dict.%s on symbolic dict" % kind)
+            # keys()/items() of a table: an opaque view (only fit for logging / passing on; iterating it is unsupported)
+            return VOpaque(fresh_name("dict_" + kind))
         if kind == "keys":
             return VTuple([ex.const(k) for k in o.d])
         if kind == "values":
@@ -1228,3 +1251,30 @@ def lv_remove(ex, state, args, kwargs, sv):
 
 
 BUILTINS["alist.extend"] = BUILTINS["list.extend"]
+
+
+@builtin("Exception.__init__")
+def b_exception_init(ex, state, args, kwargs, sv):
+    """Exception.__init__(self, *args): the instance's args become the tuple of the given arguments (a sequence of
+    unknown length passed with * is kept as a read-only view)"""
+    from .executor import StarArgs
+    self_ref, rest = args[0], list(args[1:])
+    o = ex.obj(state, self_ref)
+    if len(rest) == 1 and isinstance(rest[0], StarArgs):
+        v = ex.narrow(state, rest[0].v)
+        if isinstance(v, VNoneT):
+            ex.raise_if(state, z3.BoolVal(True), "TypeError")
+        o.fields["args"] = v
+    elif any(isinstance(x, StarArgs) for x in rest):
+        raise Unsupported("Exception.__init__ with mixed explicit and * arguments")
+    else:
+        o.fields["args"] = VTuple(rest)
+    return VNone
+
+
+@builtin("bytearray")
+def b_bytearray(ex, state, args, kwargs, sv):
+    """bytearray(iterable of ints | bytes) used as a read-only octet sequence (construction checks the 0..255 range like
+    CPython; item assignment on the result is outside the modelled subset and reported as unsupported)"""
+    ex.notes["assumed"].add("bytearray values are only read (modelled as immutable octet sequences)")
+    return b_bytes(ex, state, args, kwargs, sv)
